@@ -256,15 +256,15 @@ GC_DECODE = [
 ]
 GC_OPTIONS = [
     H(ROOT + 'gc::gc_k_options_decode_and_unknown', ['derived Deserialize for AuthenticatorOptions', 'cbor-smol ignore()'],
-      kind='gc', bound='two concrete option maps; one unknown member at three positions, six value shapes (concrete)', timeout=900),
+      kind='gc', bound='two concrete option maps; one unknown member at three positions, six value shapes (concrete)', timeout=3600, tier='thorough'),
 ]
 GC_CAP = [
     H(ROOT + 'gc::gc_k_param_type_capacity', ['derived Deserialize for PublicKeyCredentialParameters', 'heapless String<32>'],
-      kind='gc', bound='concrete type strings of exactly 32 and 33 bytes', timeout=900),
+      kind='gc', bound='concrete type strings of exactly 32 and 33 bytes', timeout=3600, tier='thorough'),
 ]
 GC_ROUNDTRIP = [
     H(ROOT + 'gc::gc_k_roundtrip_small', ['derived (De)SerializeIndexed for large_blobs::Request', 'derived serde impls for AuthenticatorOptions'],
-      kind='gc', bound='two concrete values', timeout=900),
+      kind='gc', bound='two concrete values', timeout=3600, tier='thorough'),
 ]
 K_C03_HEADS = [
     H(ROOT + 'c03::c03_k_uint_heads', ['cbor-smol ser.rs (u64) — dependency contract A6, checked']),
@@ -298,12 +298,12 @@ K_C17 = [
 K_C13 = [
     H(WEB + 'c13_k_is_utf8_char_boundary', ['webauthn::is_utf8_char_boundary']),
     H(WEB + 'c13_k_floor_char_boundary_contract', ['webauthn::floor_char_boundary'], kind='bounded',
-      bound='exact UTF-8 precondition; strings <= 6 bytes; every index', timeout=900),
+      bound='exact UTF-8 precondition; strings <= 5 bytes; every index', timeout=900),
     H(WEB + 'c13_k_floor_char_boundary_window', ['webauthn::floor_char_boundary'], kind='bounded',
       bound='window precondition (A12); strings <= 300 bytes; every index'),
     H(WEB + 'c13_k_truncate_uses_contract_l3', ['webauthn::truncate::<3> (against the contract of floor_char_boundary)'], kind='bounded',
-      bound='strings <= 6 bytes'),
-    H(WEB + 'c13_k_truncate_uses_contract_l1_l2_l4', ['webauthn::truncate::<1|2|4>'], kind='bounded', bound='strings <= 6 bytes', tier='thorough', timeout=1800),
+      bound='strings <= 5 bytes'),
+    H(WEB + 'c13_k_truncate_uses_contract_l1_l2_l4', ['webauthn::truncate::<1|2|4>'], kind='bounded', bound='strings <= 5 bytes', tier='thorough', timeout=1800),
     H(WEB + 'c13_k_truncate_64_window', ['webauthn::truncate::<64>', 'webauthn::floor_char_boundary'], kind='bounded',
       bound='texts <= 300 bytes, window precondition around the cut'),
     H(WEB + 'c13_k_user_icon_keep_or_drop', ['webauthn::deserialize_from_str_and_skip_if_too_long::<_, 128>'], kind='bounded',
@@ -394,7 +394,7 @@ K_LOSSY = [
 ]
 K_TYPE_CAP = [
     H(ROOT + 'c14::c14_k_filtered_params_type_capacity', ['<FilteredPublicKeyCredentialParameters as Deserialize>::deserialize', 'String<32> capacity of the entry type'],
-      kind='bounded', bound='lists of 0..=1 entries, type strings of 10 or 33 bytes', timeout=1200),
+      kind='bounded', bound='lists of 0..=1 entries, type strings of 10 or 33 bytes', timeout=3600, tier='thorough'),
 ]
 K_FILTERED_LEN = [
     H(ROOT + 'c14::c03_k_filtered_params_serialize_length', ['<FilteredPublicKeyCredentialParameters as Serialize>::serialize'], kind='proof',
